@@ -272,6 +272,22 @@ def plan(ctx):
     ctx.exhaustive_info = {'space': 'terminate delivery points of the child, per worker class', 'points': total, 'cases': len(cases),
                            'complete': not quick}
     ctx.run(cases, 'enumerated-terminate-points')
+    # directed: a final report larger than 16 KiB is written by multiprocessing.Connection as two writes (header, payload);
+    # graceful terminate released at the delivery points inside that code
+    big = {'$': 'bytes', 'n': 300000}
+    dl = []
+    for kind in ('process', 'pprocess'):
+        tname = (pts.get(kind) or [('m.0.0', None)])[0][0]
+        for qn in ('Connection._send_bytes', 'Connection._send'):
+            for occ in range(4, 20):
+                c = mk_case(ctx, rng, len(dl), kind=kind, ending='terminate',
+                            fault={'kind': 'terminate', 'thread': tname, 'qualname': qn, 'occ': occ},
+                            policy={'kind': 'directed', 'p_stay': rng.choice([0.0, 0.5, 0.9])}, knobs={'pipe_cap': 1 << 20}, tag='large-report')
+                c['after'] = [big]
+                c['before'] = [7]
+                c['chain'] = 0
+                dl.append(c)
+    ctx.run(dl, 'terminate-inside-the-two-write-report')
     n = 1500 if quick else 20000
     rc = []
     for i in range(n):
